@@ -372,7 +372,7 @@ impl Session {
                     } else {
                         stepped += 1;
                     }
-                    if t0.elapsed() > Duration::from_secs(10) {
+                    if t0.elapsed() > Duration::from_secs(60) {
                         break;
                     }
                 }
@@ -440,7 +440,7 @@ impl Session {
             self.wrun_idle(k);
             return "ok";
         }
-        let deadline = Instant::now() + Duration::from_secs(10);
+        let deadline = Instant::now() + Duration::from_secs(60);
         loop {
             let st = gate::wstate(&w).unwrap_or_default();
             if st.exited {
@@ -607,7 +607,7 @@ impl Session {
                     gate::set_free(&w);
                     let t0 = Instant::now();
                     res = "timeout";
-                    while t0.elapsed() < Duration::from_secs(2) {
+                    while t0.elapsed() < Duration::from_secs(10) {
                         if gate::wstate(&w).map(|s| s.exited).unwrap_or(false) {
                             res = "exited";
                             break;
@@ -626,7 +626,7 @@ impl Session {
                 let fids: Vec<u64> = self.flushes.clone();
                 let mut out = vec![];
                 for f in fids {
-                    let r = wait_cb(f, Duration::from_secs(10));
+                    let r = wait_cb(f, Duration::from_secs(60));
                     out.push(json!([f, match r { Some(true) => "ok", Some(false) => "err", None => "timeout" }]));
                 }
                 ev(json!({"e": "waitcb", "res": out}));
